@@ -227,7 +227,7 @@ class P(core.Prop):
                "via=state: TorControlProtocol on a StringTransport scripted through bootstrap as test_torstate does",
                "the harness's Listener class (runs its script only in callbacks made while no script is running; "
                "records nested calls as ESub)"]
-    assumptions = ['TZ=UTC', 'names, addresses and keywords are ASCII, addresses in canonical text form',
+    assumptions = ['process TZ=UTC (the controller\'s zone is simulated by the datetime shim: now() is host_tz away from utcnow())', 'names, addresses and keywords are ASCII, addresses in canonical text form',
                    'a listener feeds only from inside addrmap_expired, only a mapping for the name of the callback, never one '
                    'that is already expired; it does not register listeners and does not touch the clock',
                    'active listeners only on a bare AddrMap (via=direct)',
@@ -251,9 +251,14 @@ class P(core.Prop):
 
             @classmethod
             def now(cls, tz=None):
-                return cls.utcnow()
+                # the controller's own wall clock: its zone (`host_tz`, seconds east of UTC) has no bearing on
+                # Tor's UTC expiry times
+                if tz is not None:
+                    return cls.utcnow().replace(tzinfo=datetime.timezone.utc).astimezone(tz)
+                return cls.utcnow() + datetime.timedelta(seconds=case.get('host_tz', 3 * 3600))
 
         cur = []
+        feeds = [0]
 
         def sip(ip):
             return str(ip)
@@ -300,6 +305,12 @@ class P(core.Prop):
                         elif a[0] == 'fkey':
                             cur.append(['sub', lookup(a[1])])
                         elif a[0] == 'feed':
+                            feeds[0] += 1
+                            if feeds[0] > 200:
+                                # a fed mapping that expires at once feeds the next one: stop the runaway and say so
+                                if feeds[0] == 201:
+                                    cur.append(['sub', ['runaway']])
+                                continue
                             if a[2] is None:
                                 line = '%s %s NEVER' % (name, a[1])
                             else:
@@ -325,7 +336,8 @@ class P(core.Prop):
         listeners = {}
         saved = am_mod.datetime
         am_mod.datetime = types.SimpleNamespace(datetime=FakeDT, timedelta=datetime.timedelta,
-                                                date=datetime.date, time=datetime.time)
+                                                date=datetime.date, time=datetime.time,
+                                                timezone=datetime.timezone, UTC=datetime.timezone.utc)
         try:
             ops = case['ops']
             chunks = []
@@ -738,7 +750,12 @@ class P(core.Prop):
         return case
 
     def generate(self, rng, tier, n):
-        return [self._case(rng) for _ in range(n)]
+        out = []
+        for _ in range(n):
+            c = self._case(rng)
+            c['host_tz'] = rng.choice([0, 0, 3600, 7200, -18000, 19800, -12600, 46800])
+            out.append(c)
+        return out
 
     @staticmethod
     def _drop(case, lo, hi):
